@@ -28,6 +28,7 @@ impl World for W {
 }
 
 mod filter;
+mod find;
 mod runner;
 mod summarize;
 mod retry_options;
@@ -50,6 +51,7 @@ fn main() {
         "retry_options" => retry_options::run(&lines),
         "runner" => runner::run(lines.clone(), text.clone()),
         "filter" => filter::run(),
+        "find" => find::run(),
         m => panic!("unknown mode {m}"),
     }
 }
